@@ -21,7 +21,37 @@ func init() {
 
 func pick[T any](r interface{ IntN(int) int }, xs ...T) T { return xs[r.IntN(len(xs))] }
 
+// genC16Waiters: several consumers wait on one stream (and writers on the slot) when the engine is shut down:
+// every one of them must be woken by the shutdown.
+func genC16Waiters(seed uint64, run int) *Plan {
+	r := newRNG(seed, 161)
+	p := &Plan{Prop: "C16", Seed: seed, Run: run}
+	p.Cfg = Cfg{Store: "mem", Strategy: pick(r, "random", "pct", "sticky", "rr"), PCTDepth: 1 + r.IntN(3), ExpireMs: pick(r, int64(200), 60000), CloseAtEnd: false}
+	p.Cfg.Fine = fineKnob(seed, 15, 3)
+	n := 2 + r.IntN(2)
+	for i := 0; i < n; i++ {
+		tp := TaskPlan{Name: fmt.Sprintf("actor%d", i), Role: "actor"}
+		if i == 0 {
+			tp.Ops = append(tp.Ops, Op{K: "watch", Scope: pick(r, "client", "db", "coll"), DB: "db", C: "c"})
+		} else {
+			tp.Ops = append(tp.Ops, Op{K: "sleep", Ms: int64(1 + r.IntN(50))})
+		}
+		tp.Ops = append(tp.Ops, Op{K: "next", N: 100, Ctx: "deadline", Ms: int64(3000 + r.IntN(6000))})
+		p.Tasks = append(p.Tasks, tp)
+	}
+	if r.IntN(2) == 0 {
+		// a writer holding the slot and one queued behind it
+		p.Tasks = append(p.Tasks, TaskPlan{Name: "holder", Role: "actor", Ops: []Op{{K: "e.write", DB: "db", C: "e", Tag: "h", End: "commit", N: 2000 + r.IntN(3000)}}})
+		p.Tasks = append(p.Tasks, TaskPlan{Name: "queued", Role: "actor", Ops: []Op{{K: "sleep", Ms: 20}, {K: "insertOne", DB: "db", C: "c", D: jd(bson.D{{Key: "_id", Value: int32(1)}})}}})
+	}
+	p.Tasks = append(p.Tasks, TaskPlan{Name: "closer", Role: "actor", Ops: []Op{{K: "sleep", Ms: int64(100 + r.IntN(1500))}, {K: "close"}}})
+	return p
+}
+
 func genC16(seed uint64, run int, tier string) *Plan {
+	if newRNG(seed, 0x616).IntN(100) < 6 {
+		return genC16Waiters(seed, run)
+	}
 	r := newRNG(seed, 16)
 	p := &Plan{Prop: "C16", Seed: seed, Run: run}
 	p.Cfg = Cfg{
@@ -122,6 +152,9 @@ func genC16(seed uint64, run int, tier string) *Plan {
 				op = Op{K: "watch", Scope: pick(r, "client", "db", "coll"), DB: "db", C: "c"}
 			case k < 18:
 				op = Op{K: pick(r, "next", "trynext"), N: r.IntN(3), Ctx: pick(r, "deadline", "deadline", "cancel"), Ms: int64(1 + r.IntN(5000))}
+				if r.IntN(3) == 0 {
+					op.N = 100 + r.IntN(4) // a stream some other actor may be waiting on too
+				}
 			case k < 19:
 				op = Op{K: "closeStream", N: r.IntN(3)}
 			default:
@@ -340,6 +373,14 @@ func c16Check(e *Env, a *actor, c *CallRec) {
 	}
 	closed := e.closedByPlan()
 	class := classifyErr(c.Err)
+	if (c.Op.K == "next" || c.Op.K == "trynext") && e.closed && c.InvAt < e.closedAt && e.plan.Cfg.TimePassPct == 0 {
+		// shutdown closes every stream: a consumer that was waiting when Engine.Close returned is woken by it
+		// and does not sit out its own deadline
+		if d := c.RetAt - e.closedAt; d >= time.Second {
+			e.violate(violation("C16", "close-did-not-wake", c.Op.K, fmt.Sprintf("%s: %s was waiting when Engine.Close returned and came back only %v of simulated time later (%v)", a.t.Name, opStr(c.Op), d, c.Err)))
+			return
+		}
+	}
 	if class == "closed" && e.closed && c.InvAt < e.closedAt && e.plan.Cfg.TimePassPct == 0 {
 		// the call was in flight when Engine.Close returned: shutdown must have woken it, it may not sit out a timer
 		simple := false
